@@ -298,7 +298,10 @@ def run_extends(ctx, i):
     # the same model with an own child of a derived type that claims the
     # attribute of an inherited child (key, section, or unnamed section):
     # composed schema and expansion are refused alike
-    if rng.random() < 0.35:
+    # (only for models whose inherited names mean the same under every
+    # overriding key type: elsewhere the open finding about inherited
+    # names makes the two sides differ for a reason of its own)
+    if rng.random() < 0.35 and not nonfixed_inherited(model):
         res0 = family.Resolved(model)
         m3 = copy.deepcopy(model)
         derived = [t for t in m3["types"] if t["kind"] == "section"
@@ -313,7 +316,13 @@ def run_extends(ctx, i):
                                           c["kind"] in ("key", "multikey"),
                                           rng.random()))
             c = inherited[0] if rng.random() < 0.6 else rng.choice(inherited)
-            attr = c.get("attribute") or c["name"].replace("-", "_")
+            # (the attribute derives from the name as normalised by
+            # the key type it was declared under)
+            base_c = res0.types[t["extends"]]
+            attr = c.get("attribute") or family.derive_attribute(
+                family.norm_key(c.get("_declared_under", base_c.keytype),
+                                c["name"]) or c["name"]) or \
+                c["name"].replace("-", "_")
             t["children"].append(
                 {"kind": rng.choice(["key", "multikey"]), "name": "zcvclash",
                  "attribute": attr, "datatype": "string", "required": False,
